@@ -16,6 +16,15 @@ Circuit / op text formats are those of Drivers/Circ.lean.
 namespace BqVerif.Drv.Partition
 open BqVerif.Circ BqVerif.Partition BqVerif.Drv BqVerif.Drv.Circ
 
+def parseMove (t : String) : Option QMove :=
+  match t.splitOn ":" with
+  | ["e", tags, blk] => do
+    let tags ← splitNats tags
+    some (.emit tags (blk == "B"))
+  | ["l", j, m] => do let j ← j.toNat?; let m ← m.toNat?; some (.lift j m)
+  | ["f"] => some .fuse
+  | _ => none
+
 structure St where
   blocks : Blocks := []
 
@@ -33,6 +42,20 @@ def step (st : St) (line : String) : St × String :=
        (match validPartition st.blocks gids (s != 0) c p k with
         | none => (st, "ok")
         | some clause => (st, "violated " ++ clause))
+     | _, _, _, _, _ => bad)
+  | ("quick" :: k :: gids) :: [ct] :: [ops] :: moves :: [] =>
+    -- quick <k> <barrier gids…> | <c> | <op+op+…> | <moves…>
+    (match k.toNat?, nats gids, parseCirc ct,
+        (if ops == "-" then some [] else (ops.splitOn "+").mapM parseOp), moves.mapM parseMove with
+     | some k, some gids, some c, some l, some ms =>
+       if !sameTimelines c.numQudits l c.ops then (st, "violated op-list-is-not-the-circuit")
+       else
+       (match qrun gids k (QState.init l) ms 0 with
+        | .error i => (st, s!"illegal {i}")
+        | .ok s =>
+          if !s.rem.isEmpty then (st, s!"stuck {s.rem.length}")
+          else (st, "ok " ++ " ".intercalate (s.out.map (fun g =>
+            (if g.blk then "B:" else "b:") ++ ",".intercalate (g.ops.map (fun x => toString x.tag))))))
      | _, _, _, _, _ => bad)
   | [["flat", ct]] =>
     (match parseCirc ct with
